@@ -18,11 +18,49 @@ _LIT = re.compile(r"(not )?(ge|le|eq)\((.*), (-?\d+)\)$", re.S)
 _HOLDS = {"ge": {"zero", "pos"}, "le": {"neg", "zero"}, "eq": {"zero"}}
 
 
+_EQ = re.compile(r"(not )?eq\((.*)\)$", re.S)
+
+
+def _split_top(t: str):
+    depth = 0
+    for i, ch in enumerate(t):
+        if ch in "([{":
+            depth += 1
+        elif ch in ")]}":
+            depth -= 1
+        elif ch == "," and depth == 0:
+            return t[:i], t[i + 1:].strip()
+    return None
+
+
+def _as_difference(l: str) -> str:
+    """`eq(A, B)` between two call / arithmetic terms is `eq(A - B, 0)` in the normal form used for `A - B == 0`."""
+    m = _EQ.match(l)
+    if not m or _LIT.match(l):
+        return l
+    ab = _split_top(m.group(2))
+    if ab is None or not all("(" in x for x in ab):
+        return l   # plain names / constants: equality of arbitrary values, not a sign test
+    try:
+        e = ast.parse(f"({ab[0]}) - ({ab[1]}) == 0", mode="eval").body
+        g = Normalizer(None, inline=False).guard(e)
+    except (SyntaxError, NotClosedForm):
+        return l
+    ls = literals(g)
+    if len(ls) != 1:
+        return l
+    k = next(iter(ls))
+    if m.group(1):
+        k = k[4:] if k.startswith("not ") else "not " + k
+    return k
+
+
 def sign_regions(lits) -> Tuple[Dict[str, FrozenSet[str]], FrozenSet[str]]:
     """({Q: regions of sign(Q) in which all literals about Q hold}, remaining literals)."""
     per: Dict[str, set] = {}
     rest = set()
     for l in lits:
+        l = _as_difference(l)
         m = _LIT.match(l)
         if not m or m.group(4) != "0":
             rest.add(l)
